@@ -2170,6 +2170,13 @@ class ListSelector(Selector):
         self._validate_type(val)
         if val is not None:
             for o in val:
+                if o is None and self.allow_None and self.check_on_set and None not in self.objects:
+                    # allow_None is about the value as a whole: as an item
+                    # None is an object like any other
+                    raise ValueError(
+                        f"{_validate_error_prefix(self)} does not accept None "
+                        f"as an item; valid options include: {list(self.objects)!r}"
+                    )
                 super()._validate_value(o)
 
     def _update_state(self):
